@@ -6,12 +6,12 @@ SPEC = dict(
                  n_quick=240, n_thorough=4000),
     runner=dict(imports=["From ZV Require Import Lib.Base Model.Shards."], case_type="c18case",
                 mismatch_fn="c18_mismatches"),
-    rule=("worlds of 2-6 repositories (branch lists over {main, dev, HEAD} in varying order, metadata k, 1-4 documents on branch subsets) "
+    rule=("worlds of 2-6 repositories (branch lists over {main, dev, HEAD, main-old} in varying order incl. names containing one another, metadata k, 1-4 documents on branch subsets) "
          "laid out over simple shards (half of the multi-document repositories split over two shards) and compound shards of 2-3 "
          "repositories built by index.Merge, loaded into the real shardedSearcher wrapped by typeRepoSearcher (every third world: written as shard files and loaded by search.NewDirectorySearcher); 12 queries per world: "
          "shuffled top-level conjunction of 0-2 set filters {RepoSet, RepoIDs, Repo, Meta, BranchesRepos with 1-2 entries over branches "
-         "{HEAD, main, dev, \"\"} and 30/60/100 % of the repositories}, optional type:repo(child), 0-2 content atoms possibly under "
-         "not/or (or with a set filter); single child queries mostly not wrapped in And. non-trivial = a set filter or type:repo is "
+         "{HEAD, main, dev, main-old, ma, \"\"} and 30/60/100 % of the repositories}, optional type:repo(child), 0-2 content atoms possibly under "
+         "not/or (or with a set filter); single child queries mostly not wrapped in And; observed per case: file set, List rows, FileMatch.Branches per file (all three compared with the model). non-trivial = a set filter or type:repo is "
          "present and there are >= 2 shards."),
     trusted_base=["correspondence harness harness/overlay/search/zz_verif_c18_test.go + zz_verif_shardgen_test.go (generator, brute-force reference evaluator, canonicalisation, oracles)",
                   "per-shard search = reference meaning of the query (C01); query.Simplify not modelled (C05); both exercised by the correspondence",
